@@ -269,6 +269,14 @@ theorem source_forms_management :
     Gen.Fleet.healthForm = ⟨true, true⟩ ∧ Gen.Fleet.asyncHealthForm = ⟨true, true⟩ ∧
     Gen.Fleet.nodeTimeout = true ∧ Gen.Fleet.asyncNodeTimeout = true := by decide
 
+/-- `invalidate_client` — what the model's "the client is dropped" stands for in the retryable branch
+of the four loops and in both `health_check`s — waits for the node slot's lock and empties the slot
+whatever other threads are doing with the fleet (no `try_lock`, no condition): so `LoopForm.invalidateOnRetry`
+and `HealthForm.invalidateOnError` describe every interleaving with readers of the slot, not only the
+single-threaded one. Fact re-extracted from the source. -/
+theorem invalidation_is_unconditional :
+    Gen.Fleet.invalidateUnconditional = true ∧ Gen.Fleet.asyncInvalidateUnconditional = true := by decide
+
 /-- `health_check` makes at most one contact, reports healthy iff that attempt was answered with
 success, and an unhealthy verdict never leaves a client behind (in particular not a dead one): the
 next call reconnects. -/
